@@ -53,6 +53,24 @@ def strip_refs(ty):
     return ty.strip()
 
 
+def adt_head(ty):
+    """the path of a (reference-stripped) type without its trailing generic arguments; paths of items declared inside a
+    function or impl start with `<` themselves (`<T as Trait>::f::Local<'a>`), so only a *trailing* `<..>` is removed"""
+    ty = ty.strip()
+    if not ty.startswith('<'):
+        return ty.split('<')[0]
+    if ty.endswith('>'):
+        depth = 0
+        for i in range(len(ty) - 1, -1, -1):
+            if ty[i] == '>':
+                depth += 1
+            elif ty[i] == '<':
+                depth -= 1
+                if depth == 0:
+                    return ty[:i] if i > 0 and not ty[:i].endswith('::') and i != 0 else ty
+    return ty
+
+
 class Closure:
     def __init__(self, node, env, body, depth, bvd=0, pc=(), key=None):
         self.node = node
@@ -690,7 +708,7 @@ class Evaluator:
         bty = strip_refs(e.get('base_ty', ''))
         if bty.startswith('std::boxed::Box<'):
             bty = bty[len('std::boxed::Box<'):].rsplit('>', 1)[0].split(',')[0]
-        base_adt = bty.split('<')[0]
+        base_adt = adt_head(bty)
         if base_adt in self.newtypes and self.newtypes[base_adt] == e['name']:
             return b
         return T.fld(b, self.field_name(base_adt, e['name']))
@@ -718,8 +736,8 @@ class Evaluator:
     def ev_Struct(self, e, env, body, depth):
         path = e['path'].get('def', e['path'].get('name'))
         if e['path'].get('res') in ('SelfTyAlias', 'SelfCtor'):
-            path = strip_refs(e.get('ty', path)).split('<')[0]
-        ty_adt = strip_refs(e.get('ty', '')).split('<')[0]
+            path = adt_head(strip_refs(e.get('ty', path)))
+        ty_adt = adt_head(strip_refs(e.get('ty', '')))
         if e['path'].get('defkind') == 'Variant':
             ty_adt = e['path'].get('def', ty_adt)
         fields = {f['name']: self.ev(f['e'], env, body, depth) for f in e['fields']}
@@ -769,7 +787,7 @@ class Evaluator:
             nxt = None
             import re as _re
             for imp in self.crate.impls:
-                if imp.get('trait') == 'std::iter::Iterator' and _re.sub(r'/#\d+', '', strip_refs(imp.get('self_ty', ''))).split('<')[0] == ty:
+                if imp.get('trait') == 'std::iter::Iterator' and adt_head(_re.sub(r'/#\d+', '', strip_refs(imp.get('self_ty', '')))) == ty:
                     for it in imp['items']:
                         if it['name'] == 'next':
                             nxt = self.crate.body(it['path'])
@@ -1152,7 +1170,66 @@ class Evaluator:
             self.havoc(e, env)
             self.reduce_accumulators(e, itn, item, facts, snapshot, env, ev_mark)
             self.reduce_search(e, itn, item, facts, ev_mark)
+            self.reduce_collector(e, itn, item, facts, snapshot, env, ev_mark)
         return ('unit',)
+
+    def reduce_collector(self, loopnode, it, item, facts, before, env, ev_mark):
+        """`let mut v = Vec::new(); for x in it { if stop(x, v.len()) { break } v.push(f(x)) }` collects
+        it.enumerate().take_while(|(k, x)| !stop(x, k)).map(|(k, x)| f(x)): give v that value and mark the loop as reduced."""
+        if it is None:
+            return
+        nid = loopnode.get('_nid')
+        if any(x['kind'] == 'loop' and x['node'] is loopnode and x.get('reduced') for x in self.events):
+            return
+        inner = [x for x in self.events[ev_mark:] if x['depth'] == len(self.stack) and x['loops'] and x['loops'][-1] == nid]
+        deeper = [x for x in self.events[ev_mark:] if nid in x['loops'] and (not x['loops'] or x['loops'][-1] != nid)]
+        if deeper or any(x['kind'] in ('ret', 'assign', 'loop') for x in inner):
+            return
+        muts = [x for x in inner if x['kind'] == 'mutcall']
+        brks = [x for x in inner if x['kind'] == 'break']
+        if len(muts) != 1 or not muts[0]['callee'].endswith('::push') or any(b.get('value') is not None for b in brks):
+            return
+        pu = muts[0]
+        lid = pu.get('target')
+        if lid is None or '.' in str(pu.get('place', '')) or lid not in before or len(pu['args']) != 2:
+            return
+        init = T.unroot(before[lid])
+        if not (isinstance(init, tuple) and init and init[0] == 'call' and isinstance(init[1], str) and
+                (init[1].endswith('::new') or init[1].endswith('::with_capacity')) and 'Vec' in init[1]):
+            return
+        order = {id(x): i for i, x in enumerate(self.events)}
+        if any(order[id(b)] > order[id(pu)] for b in brks):
+            return      # an exit after the push keeps the item that triggered it: not a take_while
+        base_pc = len(self.pc) + len([f for f in facts if f != T.TRUE])
+        stops = []
+        for b in brks:
+            if len(b['pc']) < base_pc:
+                return
+            stops.append(T.tand(*b['pc'][base_pc:]) if b['pc'][base_pc:] else T.TRUE)
+        extra = T.tand(*pu['pc'][base_pc:]) if pu['pc'][base_pc:] else T.TRUE
+        if extra != T.TRUE and T.canon(extra) != T.canon(T.tnot(T.tor(*stops)) if stops else T.TRUE):
+            return      # a push under a condition of its own is a filter, not handled here
+        if not self.iterish(it):
+            it = ('elems', T.unroot(it))
+        d = self.bvd
+        pair = T.bv(d)
+        sub = self.item_abstraction(item, T.proj(pair, 1))
+        if sub is None:
+            return
+        H = T.unroot(T.root(('havoc', lid, nid)))
+        sub = dict(sub)
+        sub[('len', H)] = T.proj(pair, 0)
+        cont = T.substitute(T.tnot(T.tor(*stops)) if stops else T.TRUE, sub)
+        val = T.substitute(pu['args'][1], sub)
+        if T.mentions(cont, H) or T.mentions(val, H) or any(T.mentions(x, ('item', nid)) for x in (cont, val)):
+            return
+        src = ('enumerate', it)
+        if cont != T.TRUE:
+            src = ('take_while', src, ('lam', d, cont))
+        env[lid] = ('map', src, ('lam', d, val))
+        for x in self.events:
+            if x['kind'] == 'loop' and x['node'] is loopnode:
+                x['reduced'] = True
 
     def item_abstraction(self, item, x):
         """substitution expressing the loop's item roots through one value x (the item of the iterator)"""
@@ -1458,7 +1535,7 @@ class Evaluator:
             if k == 'Path' and p.get('res') == 'Local':
                 break
             if k == 'Field':
-                bty = strip_refs(p.get('base_ty', '')).split('<')[0]
+                bty = adt_head(strip_refs(p.get('base_ty', '')))
                 if bty.startswith('std::boxed::Box'):
                     bty = strip_refs(p.get('base_ty', ''))[len('std::boxed::Box<'):].rsplit('>', 1)[0].split(',')[0].split('<')[0]
                 if not (bty in self.newtypes and self.newtypes[bty] == p['name']):
@@ -1496,13 +1573,13 @@ class Evaluator:
         bty = strip_refs(q.get('base_ty', ''))
         if bty.startswith('std::boxed::Box<'):
             bty = bty[len('std::boxed::Box<'):].rsplit('>', 1)[0].split(',')[0]
-        adt = self.crate.adts.get(bty.split('<')[0])
+        adt = self.crate.adts.get(adt_head(bty))
         if not adt or adt.get('kind') != 'Struct' or len(adt.get('variants', [])) != 1:
             return cur
         names = [f['name'] for f in adt['variants'][0]['fields']]
-        if not names or any(n.isdigit() for n in names) or bty.split('<')[0] in self.newtypes:
+        if not names or any(n.isdigit() for n in names) or adt_head(bty) in self.newtypes:
             return cur
-        return T.struct(bty.split('<')[0], {self.field_name(bty.split('<')[0], n): T.fld(cur, self.field_name(bty.split('<')[0], n)) for n in names})
+        return T.struct(adt_head(bty), {self.field_name(adt_head(bty), n): T.fld(cur, self.field_name(adt_head(bty), n)) for n in names})
 
     def update_field(self, cur, fields, v):
         f = fields[0]
@@ -1638,7 +1715,7 @@ class Evaluator:
                     return v
                 return self.call_fn(fp['def'], fp.get('targs', []), args, e, body, depth)
         if fp is not None and fp.get('res') == 'SelfCtor':
-            return self.ctor(strip_refs(e.get('ty', fp.get('def', '?'))).split('<')[0], args)
+            return self.ctor(adt_head(strip_refs(e.get('ty', fp.get('def', '?')))), args)
         fv = self.ev(f, env, body, depth)
         return self.apply(fv, args, depth)
 
@@ -1771,7 +1848,7 @@ class Evaluator:
             if k == 'Path' and p.get('res') == 'Local':
                 break
             if k == 'Field':
-                bty = strip_refs(p.get('base_ty', '')).split('<')[0]
+                bty = adt_head(strip_refs(p.get('base_ty', '')))
                 if not (bty in self.newtypes and self.newtypes[bty] == p['name']):
                     fields.append(self.field_name(bty, p['name']))
                 p = p['e']
